@@ -100,8 +100,8 @@ theorem Static.owner {w : W} (hs : Static w) (pi li : Nat) (p : PoolSt) (hp : w.
   have hli' : li < p.ids.length := by omega
   have hwho : whoOf w pi li = some p.ids[li] := by simp [whoOf, hp, List.getElem?_eq_getElem hli']
   rw [hwho]
-  refine ⟨by simp [owns], fun i hi q hq => ?_⟩
-  simp only [owns]
+  refine ⟨by simp [owns, ownerTest, rejectedOwnerTest], fun i hi q hq => ?_⟩
+  simp only [owns, ownerTest, rejectedOwnerTest]
   cases hc : q.ids.contains p.ids[li]
   · rfl
   · exact absurd (hs.idsOwn pi i p q p.ids[li] hp hq (List.getElem_mem _) (by simpa using hc)).symm hi
